@@ -11,6 +11,7 @@ trap 'rm -rf "$S"' EXIT
 cp go.mod go.sum "$S"/
 $GO build -modfile="$S/go.mod" -o bin/falcosim ./cmd/falcosim
 $GO build -modfile="$S/go.mod" -o bin/simrewrite ./cmd/simrewrite
+$GO build -modfile="$S/go.mod" -o bin/faultrun ./cmd/faultrun
 for t in strace prlimit setpriv git; do
   command -v $t >/dev/null || { echo "setup: missing tool $t" >&2; exit 2; }
 done
